@@ -217,32 +217,32 @@ def c_history(ctx, case):
     def same(cls):
         return cls
     pairs = [
-        ("identity+args", lambda w: w(CountedRenamer)(), lambda: PlainRenamer(), True, True),
-        ("combine+args", lambda w: w(CachedLC)(), lambda: PlainLC(), True, False),
-        ("collector+args", lambda w: w(CachedVC)(), lambda: PlainVC(), True, False),
-        ("evaluation", lambda w: w(CachedEvaluationMapper)(env), lambda: EvaluationMapper(env),
+        ("identity+args", lambda w: w(CountedRenamer)(), lambda w: PlainRenamer(), True, True),
+        ("combine+args", lambda w: w(CachedLC)(), lambda w: PlainLC(), True, False),
+        ("collector+args", lambda w: w(CachedVC)(), lambda w: PlainVC(), True, False),
+        ("evaluation", lambda w: w(CachedEvaluationMapper)(env), lambda w: w(EvaluationMapper)(env),
          False, False),
         ("dependency", lambda w: w(CachedDependencyMapper)(**flags),
-         lambda: DependencyMapper(**flags), False, False),
+         lambda w: w(DependencyMapper)(**flags), False, False),
         # the same pairs with a documented extension hook overridden IDENTICALLY on both
-        ("dependency+hook", lambda w: w(HookedCachedDeps)(**flags), lambda: HookedDeps(**flags),
+        ("dependency+hook", lambda w: w(HookedCachedDeps)(**flags), lambda w: w(HookedDeps)(**flags),
          False, False),
-        ("evaluation+hook", lambda w: w(HookedCachedEval)(env), lambda: HookedEval(env),
+        ("evaluation+hook", lambda w: w(HookedCachedEval)(env), lambda w: w(HookedEval)(env),
          False, False),
         ("substitution", lambda w: w(CachedSubstitutionMapper)(make_subst_func(subst)),
-         lambda: SubstitutionMapper(make_subst_func(subst)), False, False),
-        ("flops", lambda w: w(FlopCounter)(), lambda: PlainFlops(), False, False),
+         lambda w: SubstitutionMapper(make_subst_func(subst)), False, False),
+        ("flops", lambda w: w(FlopCounter)(), lambda w: PlainFlops(), False, False),
         # users of the CSE-caching mix-in: one reused instance vs a fresh one per call
-        ("cse-mixin:evaluator", lambda w: w(EvaluationMapper)(env), lambda: EvaluationMapper(env),
+        ("cse-mixin:evaluator", lambda w: w(EvaluationMapper)(env), lambda w: w(EvaluationMapper)(env),
          False, False),
         ("cse-mixin:dependency", lambda w: w(DependencyMapper)(**flags),
-         lambda: DependencyMapper(**flags), False, False),
+         lambda w: w(DependencyMapper)(**flags), False, False),
         ("cse-mixin:differentiator", lambda w: w(DifferentiationMapper)(V["x"]),
-         lambda: DifferentiationMapper(V["x"]), False, False),
-        ("cse-mixin:fold", lambda w: w(ConstantFoldingMapper)(), lambda: ConstantFoldingMapper(),
+         lambda w: w(DifferentiationMapper)(V["x"]), False, False),
+        ("cse-mixin:fold", lambda w: w(ConstantFoldingMapper)(), lambda w: w(ConstantFoldingMapper)(),
          False, False),
         ("cse-mixin:commfold", lambda w: w(CommutativeConstantFoldingMapper)(),
-         lambda: CommutativeConstantFoldingMapper(), False, False),
+         lambda w: w(CommutativeConstantFoldingMapper)(), False, False),
     ]
     twins = has_twins(*pool)
 
@@ -272,7 +272,9 @@ def c_history(ctx, case):
             if name in ("combine+args", "collector+args"):
                 kw = {}
             got = outcome(lambda: memo(e, *a, **kw))
-            want = outcome(lambda: fresh()(e, *a, **kw))
+            # (the counterpart keeps a per-call table of wrappers too: in the explanation runs
+            #  it gets the same kind of keys as the instance under test)
+            want = outcome(lambda: fresh(w)(e, *a, **kw))
             if not same_out(got, want):
                 return i, (e, a, kw), got, want, memo
         return None, None, None, None, memo
